@@ -34,11 +34,11 @@ REQUIRED = {"capture.nothing_reaches_real_stream": {"quick": 1200, "thorough": 3
             "run.streams_restored_at_end": {"quick": 600, "thorough": 30000}}
 REQUIRED_SEEN = {"switches": ["out1err1log1", "out1err1log0", "out1err0log1", "out1err0log0", "out0err1log1", "out0err1log0",
                               "out0err0log1", "out0err0log0"],
-                 "log_habit": ["plain", "flush", "bulk", "peek"], "setup_logging_from_hook": ["DEBUG", "WARNING"],
+                 "log_habit": ["plain", "flush", "bulk", "peek", "tee_only"], "setup_logging_from_hook": ["DEBUG", "WARNING"],
                  "capture_switched_at_runtime": ["per scenario"],
                  "raising_hook_decoration": ["capture"], "capture_output_block_left_by": ["normal exit", "ValueError", "AssertionError", "KeyboardInterrupt", "SystemExit"], "passthrough_logging_project": ["environment_without_before_all"], "logging_filter_shape": ["include_and_exclude", "include_only", "exclude_only"]}
 NSHARDS = {"quick": 16, "thorough": 16}
-MARK = re.compile(r"\[([BMAS])\|([^|\]]*)\|([^|\]]*)\|(out|err|log|dbg|side)\]")
+MARK = re.compile(r"\[([BMAS])\|([^|\]]*)\|([^|\]]*)\|(out|err|log|dbg|side|tee)\]")
 
 
 def plan(tier, seed):
@@ -136,11 +136,16 @@ def run_case(lab, mon, case, rng, sample=False):
 
     def emit(kind, sid, scen, context=None):
         printed.append((kind, sid, scen))
+        if log_habit == "tee_only":
+            # a tee-like helper: the very same text on both streams and nothing else (both captures hold identical text)
+            sys.stdout.write(marker(kind, sid, scen, "tee") + "\n")
+            sys.stderr.write(marker(kind, sid, scen, "tee") + "\n")
+            return
         sys.stdout.write(marker(kind, sid, scen, "out") + "\n")
         sys.stderr.write(marker(kind, sid, scen, "err") + "\n")
         logging.getLogger("bvm.c18").warning("%s", marker(kind, sid, scen, "log"))
         logging.getLogger("bvm.c18").debug("%s", marker(kind, sid, scen, "dbg"))
-        logging.getLogger("bvm.side").warning("%s", marker(kind, sid, scen, "side"))      # a second logger (for --logging-filter)
+        logging.getLogger("bvm side").warning("%s", marker(kind, sid, scen, "side"))      # a second logger, with a blank in its name
         if log_habit == "flush":
             # the usual "make sure everything is written" idiom of user code: must not lose what was captured
             for h in logging.getLogger().handlers:
@@ -304,6 +309,10 @@ def run_case(lab, mon, case, rng, sample=False):
     real_out, real_err = obs.real_out.getvalue(), obs.real_err.getvalue()
     for chan, on, text in (("out", cap_out, real_out), ("err", cap_err, real_err)):
         marks = [m for m in MARK.findall(text) if m[3] == chan]
+        if log_habit == "tee_only":
+            tee = [m for m in MARK.findall(text) if m[3] == "tee"]
+            mon.check("capture.nothing_reaches_real_stream", not tee, lambda: W(channel=chan, leaked=tee[:5]))
+            continue
         if on:
             mon.check("capture.nothing_reaches_real_stream", not marks,
                       lambda: W(channel=chan, leaked=marks[:5], raw_leaks=leaks[:3]))
@@ -332,6 +341,13 @@ def run_case(lab, mon, case, rng, sample=False):
                     if step.status.name in ("failed", "error") and step.error_message is not None and s.name in produced:
                         msg = step.error_message
                         got = MARK.findall(msg)
+                        if log_habit == "tee_only":
+                            # every line sits in the report twice: once below "Captured stdout", once below "Captured stderr"
+                            exp_t = sorted([(k, sid, s.name, "tee") for (k, sid) in produced[s.name]] * 2)
+                            mon.check("report.failing_step_has_exactly_its_scenarios_output", sorted(got) == exp_t,
+                                      lambda: W(scenario=s.name, step=step.name, habit="tee_only", got=sorted(got)[:8], want=exp_t[:8],
+                                                sections=[l for l in msg.splitlines() if l.startswith("Captured")]))
+                            break
                         if not cap_log:
                             # log capture off: records go wherever logging sends them (with no handler configured:
                             # logging.lastResort -> sys.stderr, i.e. into the stderr capture) -- not tracked
@@ -340,7 +356,7 @@ def run_case(lab, mon, case, rng, sample=False):
                         exp = []
                         for (k, sid) in produced[s.name]:
                             for chan, on in (("out", cap_out), ("err", cap_err), ("log", cap_log and filter_passes("bvm.c18")),
-                                             ("dbg", cap_dbg and filter_passes("bvm.c18")), ("side", cap_log and filter_passes("bvm.side"))):
+                                             ("dbg", cap_dbg and filter_passes("bvm.c18")), ("side", cap_log and filter_passes("bvm side"))):
                                 if on:
                                     exp.append((k, sid, s.name, chan))
                         foreign = [m for m in got if m[2] != s.name]
@@ -357,7 +373,8 @@ def run_case(lab, mon, case, rng, sample=False):
         mon.check("formatter.no_output_of_passing_scenarios", not bad, lambda: W(shown=bad[:5]))
         # the step-progress formatter prints the captured output of a failing step in its problem block: once
         marks2 = MARK.findall(fbuf2.getvalue())
-        twice = sorted(set(m for m in marks2 if marks2.count(m) > 1))
+        limit = 2 if log_habit == "tee_only" else 1          # (the tee habit writes every line to both streams)
+        twice = sorted(set(m for m in marks2 if marks2.count(m) > limit))
         bad2 = [m for m in marks2 if m[2] in passing and ((m[3] == "out" and cap_out) or (m[3] == "err" and cap_err) or (m[3] == "log" and cap_log))]
         mon.check("formatter.captured_output_shown_once", not twice and not bad2, lambda: W(formatter="progress2", repeated=twice[:5], of_passing=bad2[:5]))
     if sample:
@@ -467,8 +484,8 @@ def run(spec, mon):
         if rng.random() < 0.3:
             extra.append("--logging-level=%s" % rng.choice(["DEBUG", "WARNING", "INFO"]))
         if rng.random() < 0.3:
-            extra.append("--logging-filter=%s" % rng.choice(["bvm.c18", "-other", "bvm.c18,-other", "-other,bvm.c18", "-bvm.side", "bvm.side",
-                                                             "bvm.side,bvm.c18", "bvm.c18,-bvm.side", "x.y,-bvm.c18"]))
+            extra.append("--logging-filter=%s" % rng.choice(["bvm.c18", "-other", "bvm.c18,-other", "-other,bvm.c18", "-bvm side", "bvm side",
+                                                             "bvm side,bvm.c18", "bvm.c18,-bvm side", "x.y,-bvm.c18"]))
         case["args"] = case["args"] + extra
         # nested execute_steps for some passing steps
         nested = {}
@@ -491,7 +508,9 @@ def run(spec, mon):
         if i % 11 == 6:
             case["runtime_switch"] = True
             mon.seen("capture_switched_at_runtime", "per scenario")
-        if i % 7 == 5:
+        if i % 8 == 7 and (i // 8) % 3 == 1:
+            case["log_habit"] = "tee_only"          # (i % 8 == 7: all three captures are on)
+        elif i % 7 == 5:
             case["log_habit"] = "peek"
         elif i % 7 == 3:
             case["log_habit"] = "flush"
